@@ -418,3 +418,113 @@ func c13GenBytes(r *rand.Rand, nrand int, emit func(c13Input, []string)) {
 		}
 	}
 }
+
+// ---------------------------------------------------------------- concurrent blocks
+
+// c13GenConc: a store (1-2 declared names, lookups allowed, possibly a cache holding the declared
+// names at stale versions), a short sequential prefix, then a block of concurrent calls whose
+// first cache write is held.  The names looked up in the block are unknown to the store before.
+func c13GenConc(r *rand.Rand, i int) c13Input {
+	in := c13Input{Kind: "conc", Allow: true, Probe: append([]string{}, c13Universe...), Server: map[string]c13SV{}}
+	perm := r.Perm(len(c13Universe))
+	nd := 1 + r.IntN(2)
+	for k := 0; k < nd; k++ {
+		in.Names = append(in.Names, c13Universe[perm[k]])
+	}
+	free := []string{}
+	for k := nd; k < len(perm); k++ {
+		free = append(free, c13Universe[perm[k]])
+	}
+	for _, n := range c13Universe {
+		in.Server[n] = c13SV{uint32(2 + r.IntN(2)), c13Pick(r, c13Values[2:])}
+	}
+	if r.IntN(2) == 0 { // a cache with the declared names, one version behind
+		doc := c13Obj()
+		names := append([]string{}, in.Names...)
+		sort.Strings(names)
+		for _, n := range names {
+			doc.O = append(doc.O, c13KV{[]byte(n), c13Entry(fmt.Sprint(in.Server[n].Ver-1), c13Pick(r, c13Values), fmt.Sprint(c13T0-int64(r.IntN(5000))))})
+		}
+		in.Cache = doc.Bytes()
+	}
+	in.File = r.IntN(4) == 0
+	// prefix
+	if r.IntN(2) == 0 {
+		in.Ops = append(in.Ops, c13Op{Op: "read", Name: in.Names[0]})
+	}
+	if r.IntN(3) == 0 {
+		in.Ops = append(in.Ops, c13Op{Op: "lookup", Name: free[2]}) // free[2] is never used in the block
+	}
+	if r.IntN(3) == 0 {
+		in.Ops = append(in.Ops, c13Op{Op: "poll"})
+	}
+	in.Ops = append(in.Ops, c13Op{Op: "tick", Secs: int64(1 + r.IntN(100))})
+	// something for a poll to install: a declared name moves on at the service
+	bump := func() {
+		n := in.Names[r.IntN(len(in.Names))]
+		in.Ops = append(in.Ops, c13Op{Op: "set", Name: n, Ver: in.Server[n].Ver + 1, Val: c13Pick(r, c13Values[2:])})
+	}
+	x, y := free[0], free[1]
+	switch i % 8 {
+	case 0:
+		in.Conc = []c13Op{{Op: "lookup", Name: x}, {Op: "lookup", Name: y}}
+	case 1:
+		in.Conc = []c13Op{{Op: "lookup", Name: x}, {Op: "lookup", Name: y}, {Op: "lookup", Name: free[2]}}
+		// free[2] may have been looked up in the prefix already: then that call writes nothing
+	case 2:
+		bump()
+		in.Conc = []c13Op{{Op: "lookup", Name: x}, {Op: "poll"}}
+	case 3:
+		bump()
+		in.Conc = []c13Op{{Op: "poll"}, {Op: "lookup", Name: y}}
+	case 4:
+		in.Conc = []c13Op{{Op: "lookup", Name: x}, {Op: "close"}}
+	case 5:
+		bump()
+		in.Conc = []c13Op{{Op: "poll"}, {Op: "close"}}
+	case 6:
+		in.Conc = []c13Op{{Op: "close"}, {Op: "lookup", Name: y}}
+	default:
+		bump()
+		in.Conc = []c13Op{{Op: "poll"}, {Op: "lookup", Name: x}, {Op: "lookup", Name: y}}
+	}
+	return in
+}
+
+// ---------------------------------------------------------------- partially decodable documents
+
+// c13GenPartial: documents whose FIRST entries are valid (and include a declared name, cached at
+// a version the service no longer has) and whose LAST entry stops the decoder with an error in the
+// middle of the document.  encoding/json has filled the map with the early entries by then; the
+// store must not use any of them: every declared name is fetched, nothing stale is served.
+var c13BadEntries = []string{
+	`1`, `"s"`, `[]`, `true`, // entry is not an object
+	`{"secret":[],"lastAccess":"5"}`, `{"secret":"s","lastAccess":"5"}`, `{"secret":7}`,
+	`{"secret":{"Value":"!!","Version":1},"lastAccess":"5"}`, `{"secret":{"Value":"YQ","Version":1},"lastAccess":"5"}`,
+	`{"secret":{"Value":7,"Version":1},"lastAccess":"5"}`, `{"secret":{"Value":[1,256],"Version":1},"lastAccess":"5"}`,
+	`{"secret":{"Value":"YQ==","Version":"1"},"lastAccess":"5"}`, `{"secret":{"Value":"YQ==","Version":-1},"lastAccess":"5"}`,
+	`{"secret":{"Value":"YQ==","Version":4294967296},"lastAccess":"5"}`, `{"secret":{"Value":"YQ==","Version":1.5},"lastAccess":"5"}`,
+	`{"secret":{"Value":"YQ==","Version":1},"lastAccess":5}`, `{"secret":{"Value":"YQ==","Version":1},"lastAccess":"x"}`,
+	`{"secret":{"Value":"YQ==","Version":1},"lastAccess":""}`, `{"secret":{"Value":"YQ==","Version":1},"lastAccess":"9223372036854775808"}`,
+	`{"secret":{"Value":"YQ==","Version":1},"lastAccess":true}`, `{"lastAccess":[]}`,
+}
+
+func c13GenPartial(r *rand.Rand, emit func(c13Input, []string)) {
+	for i, bad := range c13BadEntries {
+		for rep := 0; rep < 2; rep++ {
+			// keys in document order: the valid ones first, the bad one last ("zz" sorts last too)
+			good := []string{"a", "d"}
+			if rep == 1 {
+				good = []string{"b/c", "e/f/g", "h"}
+			}
+			doc := c13Obj()
+			for _, n := range good {
+				doc.O = append(doc.O, c13KV{[]byte(n), c13Entry(fmt.Sprint(1+r.IntN(3)), c13Pick(r, c13Values[2:]), fmt.Sprint(c13T0-int64(r.IntN(5000))))})
+			}
+			doc.O = append(doc.O, c13KV{[]byte("zz"), &c13J{K: 'n', Raw: bad}})
+			names := good[:1+r.IntN(len(good))]
+			in := c13DocInput(doc.Bytes(), append([]string{}, names...), r, fmt.Sprintf("valid entries, then a bad one (#%d)", i))
+			emit(in, []string{"doc-partial-then-error"})
+		}
+	}
+}
